@@ -324,7 +324,8 @@ InvalidFails ==
         /\ (op.a = "slash" /\ (op.f[1] > op.f[2] \/ op.v \notin Vals)) => ~op.ok]_vars
 
 (* an unbonding is paid back by the first block update at or after its time, and not before *)
-QueueFuture == \A i \in 1..Len(queue) : queue[i].at > now
+(* (with an unbonding period of 0 an entry is due at once and waits for the next block update) *)
+QueueFuture == \A i \in 1..Len(queue) : queue[i].at > now \/ (Unbond = 0 /\ queue[i].at = now)
 PayoutTiming ==
        [][(IsOp /\ last'.a = "advance") =>
             \A d \in Dels :
